@@ -25,12 +25,14 @@ import lib_sqlast as L
 AREA = "SqlAst"
 MODULES = ["Arc.SqlAst.Props"]
 THEOREMS = [("Arc.SqlAst.Props", t) for t in [
+    # the current source (every repair present)
+    "C14_current_never_raw", "C14_current_sound", "C14_current_sound_header", "C14_current_witnesses_closed",
+    # every variant of the code, and the refutations of the code as it was
     "C14_transform_path_sound", "C14_transform_path_sound_header", "C14_raw_path_text",
     "C14_raw_nofrom_refuted", "C14_raw_nofrom_string_refuted", "C14_raw_pivot_refuted", "C14_raw_read_parquet_refuted",
     "C14_transform_table_kind_refuted", "C14_paren_group_refuted", "C14_backslash_quote_refuted",
     "C14_quoted_comment_marker_refuted", "C14_quoted_comment_marker_string_position_refuted", "C14_query_function_refuted", "C14_header_cte_refuted",
     "C14_header_cte_slow_path_refuted", "C14_header_window_clause_refuted", "C14_lateral_string_injection_refuted", "C14_case_dedup_refuted",
-    "C14_transform_path_sound_header_repaired",
 ]]
 TIE_NAME = ("C14 correspondence (QueryHandler.executeQuery via app.Test: ValidateSQLRequest, header checks, SHOW gate, "
             "checkQueryPermissions/extractTableReferences, getTransformedSQLForParallel/convertSQLToStoragePaths* "
@@ -216,6 +218,15 @@ def build_cases(rng, tier):
     for sql, hdr in GUARD_PROBES:
         cases.append(L.mk_case(sql, hdr))
         meta.append({"src": "guard-probe", "labels": [], "disguises": [], "items": []})
+    for sql, hdr in L.QUALIFIED_EXCLUSION_PROBES:
+        cases.append(L.mk_case(sql, hdr, allow=["db1"]))
+        meta.append({"src": "qualified-exclusion", "labels": ["qualified-cte-or-skip-name"], "disguises": [], "items": []})
+    for label, pre, sql, hdr, allow in L.cache_pairs():
+        cases.append(L.mk_case(sql, hdr, allow=allow, pre=pre))
+        meta.append({"src": "request-pair", "labels": ["pair:" + label], "disguises": [], "items": []})
+    for sql, hdr, label in L.cte_quoting_matrix():
+        cases.append(L.mk_case(sql, hdr, allow=rng.choice([["db1"], ["db1", "default"]])))
+        meta.append({"src": "cte-quoting", "labels": [label], "disguises": ["quoted-name"] if "quoted" in label else [], "items": []})
     for c in corpus_cases():
         cases.append(L.mk_case(c["sql"], c.get("hdr", ""), allow=c.get("allow", ["db1"])))
         meta.append({"src": "corpus", "labels": [], "disguises": [], "items": []})
@@ -241,7 +252,8 @@ def build_cases(rng, tier):
         meta.append({"src": "mutated", "labels": g["labels"], "disguises": g["disguises"], "items": []})
     # a sample through the other endpoints that share the gate: only accept/reject, checked set and canaries
     nq = len(cases)
-    first_gen = len(WITNESSES) + len(GUARD_PROBES) + len(corpus_cases())
+    first_gen = (len(WITNESSES) + len(GUARD_PROBES) + len(L.QUALIFIED_EXCLUSION_PROBES) + len(L.cache_pairs())
+                 + len(L.cte_quoting_matrix()) + len(corpus_cases()))
     twins = [0, 2, 5, 10, 21, 24] + list(range(first_gen, min(first_gen + 10, nq)))
     for ep in ("estimate", "arrow", "msgpack"):
         for t in twins:
@@ -371,11 +383,12 @@ def run(res, tier, seed):
             if want_leak:
                 return [(not f["agree"]) and o.get("status") == 200 and bool(leaked(c, cl, o)) for c, o, cl, f in zip(cands, o2, c2, f2)]
             return [not f["agree"] for f in f2]
-        small = shrink(cases[i], still, rounds=2 if tier == "quick" else 4)
+        small = cases[i]["sql"] if cases[i].get("pre") else shrink(cases[i], still, rounds=2 if tier == "quick" else 4)
         o2, c2, f2 = rerun([dict(cases[i], sql=small)])
         bad = leaked(dict(cases[i], sql=small), c2[0], o2[0]) if o2[0].get("status") == 200 else []
         res.violation("model and implementation disagree on the gate (%d disagreeing cases, %d of them read unchecked data)" % (len(disagreements), len(dis_leak)),
                       {"kind": "correspondence", "correspondence": TIE_NAME, "sql": small, "hdr": cases[i]["hdr"], "allow": cases[i]["allow"],
+                       "preceding_requests_on_the_same_handler": cases[i].get("pre") or [],
                        "impl": {k: o2[0].get(k) for k in ("status", "err", "checked", "executed", "readset", "seen")},
                        "classified": c2[0], "disagreeing_cases": len(disagreements), "oracle_fails_on_impl": bool(bad), "unchecked_reads": bad,
                        "how_to_replay": "python3 tools/check.py C14 --replay <this file>"}, no_input=not bad, suffix="corr")
@@ -383,6 +396,7 @@ def run(res, tier, seed):
         res.violation("a measurement was read without having been permission-checked: %r hdr=%r read %s, checked %s (class %s)" % (
             cases[i]["sql"][:160], cases[i]["hdr"], bad, cls[i]["checked"], sig),
             {"kind": "oracle", "sql": cases[i]["sql"], "hdr": cases[i]["hdr"], "allow": cases[i]["allow"], "ep": cases[i]["ep"], "signature": sig,
+             "preceding_requests_on_the_same_handler": cases[i].get("pre") or [],
              "unchecked_reads": bad, "impl": {k: outs[i].get(k) for k in ("status", "err", "checked", "executed", "readset", "seen")},
              "in_theorem_domain": flags[i]["in_domain"], "how_to_replay": "python3 tools/check.py C14 --replay <this file>"}, suffix="oracle")
     for i in parity[:2]:
@@ -456,10 +470,13 @@ def replay(res, path):
     if "sql" not in obj:
         print("replay file names no concrete input:", obj.get("summary"))
         return 1
-    case = L.mk_case(obj["sql"], obj.get("hdr", ""), ep=obj.get("ep", "query"), allow=obj.get("allow", ["db1"]))
+    pre = [(p["sql"], p["hdr"], p["allow"]) for p in obj.get("preceding_requests_on_the_same_handler", [])]
+    case = L.mk_case(obj["sql"], obj.get("hdr", ""), ep=obj.get("ep", "query"), allow=obj.get("allow", ["db1"]), pre=pre)
     outs = L.run_cases("C14", [case], "replay")
     cls, flags = evaluate_fast([case], outs, "Replay")
     bad = leaked(case, cls[0], outs[0]) if outs[0].get("status") == 200 else []
+    for p in case["pre"]:
+        print("preceding request on the same handler:", repr(p["sql"]), "| header:", repr(p["hdr"]), "| caller allowed:", p["allow"])
     print("statement:", repr(case["sql"]), "| header:", repr(case["hdr"]), "| caller allowed:", case["allow"])
     print("handler:", {k: outs[0].get(k) for k in ("status", "err", "checked", "executed", "readset", "seen")})
     print("model agrees:", flags[0]["agree"], "| in theorem domain:", flags[0]["in_domain"], "| read prediction agrees:", flags[0]["reads_agree"])
